@@ -259,6 +259,15 @@ for _p, _t in _EXTRA6.items():
         t, n, te, r = CLAIMS[_p]
         CLAIMS[_p] = (t + _t, n, te, r)
 
+# Seventh round (DESIGN §8 round 7).
+_EXTRA7 = {
+ "C16": " Seventh round: (R-CUR-9) FETCH RELATIVE computes index + number only on paths whose branch conditions bound the sum on both sides (it cannot wrap around) — genuine defect repaired (be64c59); R-CUR-4 accepts a saturated move only where the branch condition proves that index + number lies on or beyond the boundary that is stored instead.",
+}
+for _p, _t in _EXTRA7.items():
+    if _p in CLAIMS:
+        t, n, te, r = CLAIMS[_p]
+        CLAIMS[_p] = (t + _t, n, te, r)
+
 # Substrate rules (rules/zz_substrate.go): run with every property whose observable behaviour they protect.
 _SUBSTRATE = " Substrate (run with every value-level property, DESIGN §2.11): R-POOL-1/2/3/5 (no value object is returned to its pool while something still refers to it, none twice), R-PAR-1 (no unsynchronised conflicting access between worker goroutines), R-ALIAS-1 (no shared spare capacity), R-ISO-4 / R-AST-1 (no in-place write to cells or syntax trees that another holder shares)."
 for _p in ["C01","C02","C03","C04","C05","C06","C07","C08","C12","C13","C14","C15","C16","C17","C19","C20"]:
